@@ -1,10 +1,13 @@
 #!/bin/sh
 # regression: every stored breaking seed must be reported as VIOLATION, every benign refactoring must exit without VIOLATION
+# (third column: "ded" when a deductive obligation failed, "std" when the failing input of the bounded stand-in decided)
 cd /verif
 for d in seeded/C*; do
   p=$(basename $d | cut -c1-3)
-  r=$(tools/seedcheck.sh /verif/$d/patch.diff $p 2>&1 | grep -E "^(VIOLATION|OK|BOUNDED-STAND-IN|UNDECIDED)" | tail -1 | cut -c1-60)
-  echo "$(basename $d): $r"
+  o=$(tools/seedcheck.sh /verif/$d/patch.diff $p 2>&1)
+  r=$(echo "$o" | grep -E "^(VIOLATION|OK|BOUNDED-STAND-IN|UNDECIDED)" | tail -1 | cut -c1-60)
+  k=std; echo "$o" | grep -q "^failed obligation" && k=ded
+  echo "$(basename $d): $k $r"
 done
 for d in seeded/benign/C*; do
   p=$(basename $d)
